@@ -78,8 +78,9 @@ def labelledSelect (hs : List (MemberOut × Nat)) (idx : List Nat) (B : List Str
       match m with
       | .alwaysFrame => freshLabels part
       | .followsInput => (idx.map (fun (i : Nat) => Int.ofNat i)).zip part
-    let A := lab m1 (cells.map (fun c => c.take w1))
-    let Bf := lab m2 (cells.map (fun c => c.drop w1))
+    -- FeatureUnion._hstack (since /repo bec276b): every member output is re-labelled 0..k-1 first
+    let A := resetIndex (lab m1 (cells.map (fun c => c.take w1)))
+    let Bf := resetIndex (lab m2 (cells.map (fun c => c.drop w1)))
     match concat2 A Bf with
     | .ok rows => showRows (rows.map (fun (a, b) => ",".intercalate (a.getD (nanCells w1) ++ b.getD (nanCells w2))))
     | .error _ => "E:other"
